@@ -163,6 +163,7 @@ def run(ctx, chk):
             roots.append(d)
     chk.stats["roots"] = len(roots)
     loops_seen = {}
+    inlined_from = set()    # (caller def, callee def): the callee's body was walked inline from that caller on some path
     for d in roots:
         body = db.bodies[d]
         hs = T.helpers_of(ctx, body)
@@ -179,6 +180,11 @@ def run(ctx, chk):
         chk.stats.setdefault("invariant_rounds", {})[d.split("::")[-2] if "::" in d else d] = nround
         for r in res:
             for e in r.trace:
+                stk = e[3] if e[0] == "assert" else (e[4] if e[0] == "call" and len(e) > 4 else None)
+                if isinstance(stk, tuple):
+                    fr = [x for x in stk if isinstance(x, tuple) and len(x) == 2 and isinstance(x[0], str)]
+                    for a_, b_ in zip(fr, fr[1:]):
+                        inlined_from.add((a_[0], b_[0]))
                 if e[0] == "loop":
                     loops_seen.setdefault((e[3], e[1]), []).append(r)
                 if e[0] == "assert":
@@ -207,7 +213,14 @@ def run(ctx, chk):
         same = sorted(k for k in inventory if k[0] == d and inventory[k]["kind"] == ent["kind"])
         ordinal = same.index((d, bb))
         key = "%s:%s#%d" % (d, ent["kind"], ordinal)
-        if ent["visited"] == 0:
+        if ent["visited"] == 0 and d not in roots and db.bodies[d].kind != "Closure" and callers.get(d) \
+                and all((c, d) in inlined_from for c in callers[d] if c != d):
+            # a private helper walked inline from every one of its callers in the parsers' closure, with their argument
+            # values: the walker enumerates every feasible path, so a block none of them reaches is cut off by the
+            # callers' (constant) arguments - e.g. a mode parameter no parser passes
+            chk.ok("Z1", key, ent["span"], "infeasible from the parser entries: the helper is inlined from each caller (%s) and no walked path reaches this block" % ", ".join(sorted(c.split("::")[-1] for c in callers[d])))
+            n_ok += 1
+        elif ent["visited"] == 0:
             chk.fail("Z1", key, ent["span"], "panic-capable site (%s) is not reached by any walked path" % ent["text"], undecided=True)
         elif ent["failed"] is not None:
             rule, detail, r = ent["failed"]
